@@ -365,6 +365,7 @@ inductive Act (V : Type)
   | writeInit                           -- writeInitParams()
   | load                                -- loadParameters()
   | factoryReset
+  | seterr (name : String)              -- announceUpdate(name, err=e): a read error (or a value the datatype refuses)
 
 /-- one action of a history on the world (module state, disk) -/
 def act (env : Env P N V) (ms : MState N V) (file : Option Bytes) (a : Act V) (fault : Option Fault) :
@@ -375,6 +376,9 @@ def act (env : Env P N V) (ms : MState N V) (file : Option Bytes) (a : Act V) (f
   | .writeInit => writeInit env ms fault
   | .load => loadParameters env ms file fault
   | .factoryReset => factoryReset env ms fault
+  -- the value stays; the callbacks are called with two arguments `(value, err)`, which `saveParameters(self, _=None)`
+  -- does not take: the `TypeError` is swallowed like any exception of a callback, nothing is saved, the callback stays
+  | .seterr _ => ⟨ms, [], [], false⟩
 
 structure World (P N V : Type) where
   ms : MState N V
